@@ -64,7 +64,7 @@ def cases_1d(rng, tier):
                 else:
                     c = rng.choice([0, 0, 3])
                 cast = bool(np.can_cast(c, arr.dtype))
-                out = impl_resize(arr, (m,), off, mode, c, d)
+                out = impl_resize(arr, (m,), None if (off == 0 and rng.random() < 0.4) else off, mode, c, d)
                 term = ('{| k_strict := %s; k_m := %s; k_d := %s; k_c := %s; k_cast := %s; k_arr := %s; k_nout := %s; '
                         'k_off := %s; k_out := %s |}'
                         % (C.b(strict), T.PMODE[mode], DIRK[d], C.q(c), C.b(cast), C.qs(arr.tolist()), C.nat(m), C.z(off), out))
@@ -205,6 +205,13 @@ def cases_op(rng, tier):
                                           discr_kwargs={'nodes_on_bdry': kw_flags})
             except Exception:
                 continue
+            explicit = (k % 3 == 1)
+            if explicit:
+                # same operator through ResizingOperator(domain, range): offset from _offset_from_spaces
+                try:
+                    op = odl.ResizingOperator(X, op.range, pad_mode=mode, pad_const=c)
+                except Exception:
+                    continue
             x = np.array([rng.randint(-9, 9) for _ in range(int(np.prod(shape)))], dtype=float).reshape(shape)
             y = np.array([rng.randint(-9, 9) for _ in range(int(np.prod(nnew)))], dtype=float).reshape(nnew)
             fx = _out(lambda: op(x))
@@ -224,8 +231,8 @@ def cases_op(rng, tier):
                        C.zs([int(o) for o in op.offset]),
                        C.qs(x.ravel().tolist()), fx, C.qs(y.ravel().tolist()), ay, inv))
             cs.add(term, {'mode': mode, 'domain': dom, 'ran_shp': nnew, 'offset': offs, 'kw_nodes_on_bdry': kw_flags,
-                          'pad_const': c, 'x': x.tolist()},
-                   (mode, tuple(dom), tuple(nnew), tuple(offs), tuple(kw_flags), c, tuple(x.ravel().tolist())))
+                          'pad_const': c, 'x': x.tolist(), 'explicit_range': explicit},
+                   (mode, explicit, tuple(dom), tuple(nnew), tuple(offs), tuple(kw_flags), c, tuple(x.ravel().tolist())))
     return cs
 
 
@@ -483,6 +490,54 @@ def probes(rng, tier):
                     % ([float(n) for n in ish], ish, tuple(osh), offs, ish, osh))
         ok, _ = _run(rp)
         out.append(C.Probe(ok, 'op-axes', 'ResizingOperator.axes lists exactly the resized axes', rp))
+    # 9. derivative: zero-padding variant for constant c != 0 (affine), the operator itself otherwise
+    for mode in MODES:
+        for k in range(max(2, nper // 3)):
+            ish, osh, offs = _legal_config(rng, mode, rng.choice([1, 2]), hi)
+            c = rng.choice([1.5, -2]) if mode == 'constant' else 0
+            vx = [rng.randint(-5, 5) for _ in range(int(np.prod(ish)))]
+            vh = [rng.randint(-5, 5) for _ in range(int(np.prod(ish)))]
+            rp = pre + ("X=odl.uniform_discr(%r,%r,%r)\nop=odl.ResizingOperator(X,ran_shp=%r,offset=%r,pad_mode=%r,pad_const=%r)\n"
+                        "x=X.element(np.array(%r,dtype=float).reshape(%r)); h=X.element(np.array(%r,dtype=float).reshape(%r))\n"
+                        "D=op.derivative(x)\nobserved=np.asarray(D(h)); expected=np.asarray(op(x+h))-np.asarray(op(x))\n"
+                        "grows=any(a<b for a,b in zip(%r,%r))\n"
+                        "ok=bool(np.array_equal(observed,expected) and D.is_linear and (op.is_linear or %r!=0) and ((D is op) == op.is_linear))\n"
+                        % ([0.0] * len(ish), [float(n) for n in ish], ish, tuple(osh), offs, mode, c, vx, ish, vh, ish, ish, osh, c))
+            ok, _ = _run(rp)
+            out.append(C.Probe(ok, 'derivative-%s' % mode, 'derivative of ResizingOperator (%s, pad_const=%r) is the linear part' % (mode, c), rp))
+
+    # 10. explicit range: shift by a non-multiple of the cell side / other cell side must be rejected
+    for k in range(max(2, nper // 2)):
+        n = rng.randint(3, 6); pl = rng.randint(1, 2); pr = rng.randint(0, 2)
+        bad = ['shift', 'cell'][k % 2]
+        if bad == 'shift':
+            lo, hi2, m = -pl - 0.5, n + pr - 0.5, n + pl + pr
+        else:
+            lo, hi2, m = -pl * 1.0, (n + pr) * 1.0, 2 * (n + pl + pr)
+        rp = pre + ("X=odl.uniform_discr(0,%r,%d)\nY=odl.uniform_discr(%r,%r,%d)\n"
+                    "try:\n    op=odl.ResizingOperator(X,Y); observed=op.offset; ok=False\n"
+                    "except ValueError:\n    ok=True\n" % (float(n), n, lo, hi2, m))
+        ok, _ = _run(rp)
+        out.append(C.Probe(ok, 'explicit-range-%s-rejected' % bad,
+                           'explicit range with a %s mismatch must raise ValueError' % bad, rp))
+
+    # 11. out= : previous contents (NaN) and memory order of `out` do not matter
+    for mode in MODES:
+        for k in range(max(2, nper // 3)):
+            ish, osh, offs = _legal_config(rng, mode, 2, hi)
+            vals = [rng.randint(-9, 9) for _ in range(int(np.prod(ish)))]
+            order = rng.choice(['C', 'F'])
+            direction = rng.choice(DIRS)
+            a, b = (ish, osh) if direction == 'forward' else (osh, ish)
+            vals = [rng.randint(-9, 9) for _ in range(int(np.prod(a)))]
+            rp = pre + ("arr=np.array(%r,dtype=float).reshape(%r)\nout=np.full(%r,np.nan,order=%r)\n"
+                        "r=resize_array(arr,%r,offset=%r,pad_mode=%r,direction=%r,out=out)\n"
+                        "expected=resize_array(arr.copy(),%r,offset=%r,pad_mode=%r,direction=%r)\nobserved=out\n"
+                        "ok=bool(r is out and np.array_equal(out,expected) and np.array_equal(arr,np.array(%r,dtype=float).reshape(%r)))\n"
+                        % (vals, a, tuple(b), order, tuple(b), offs, mode, direction, tuple(b), offs, mode, direction, vals, a))
+            ok, _ = _run(rp)
+            out.append(C.Probe(ok, 'out-param-%s' % mode,
+                               'resize_array(out=NaN-filled %s-order array) gives the same result and leaves the input unchanged' % order, rp))
     return out
 
 
